@@ -427,6 +427,8 @@ DEQ_CALLS = re.compile(r"^(pop|read_batch|deq_once|deq_run|drain_straggler|pop_n
                        r"try_recv_internal|try_recv_batch_internal|try_recv|take|drain)$")
 LOCK_FAMILIES = re.compile(r"^fibre::(mpmc_v2::core::|mpmc_v2::sync_impl::|internal::rendezvous::|spmc::topic::mailbox::|<spmc::topic::mailbox::)")
 LOCKED_OBS = re.compile(r"^(len|is_empty|drain_into|pop|pop_front|pop_receiver)$")
+# bodies in which a waiter-state verdict of the closer is final (no buffer behind the waiter, or the state byte itself says whether an item was delivered)
+STATE_VERDICT_FINAL = re.compile(r"^fibre::(internal::rendezvous::|<?mpmc_v2::rendezvous::|<?mpsc::rendezvous::|<?spsc::rendezvous::|<?mpmc_v2::unbounded::|mpmc_v2::unbounded::)")
 C5_SKIP = {
     r"^fibre::oneshot::": "oneshot: a single value guarded by a state machine (SENT/TAKEN/CLOSED); there is no queue to re-drain — decided by C01-3/C03",
     r"^fibre::<?error::": "error type helpers",
@@ -449,6 +451,7 @@ def clause5(P, res):
             continue
         # edges on which the decision is somebody else's
         fwd_edges, closed_edges = [], []
+        state_obs = []
         for blk in range(len(b.blocks)):
             if b.is_cleanup(blk):
                 continue
@@ -456,16 +459,22 @@ def clause5(P, res):
             if t["k"] == "switch" and t.get("on", {}).get("kind") == "discr":
                 fwd_edges += b.edges_by_label(blk).get("Disconnected", [])
             # decisions read off the waiter's own state byte are the closer's decision (it stored the terminal state under the
-            # channel lock when the last sender left): forwarded, not decided here
-            if t["k"] == "switch" and mir.derives_from_call(b, t["o"], lambda x: x.is_atomic and x.method == "load" and bool(x.args)
-                                                            and re.search(r"(^|\.)(state|done_flag)$", b.path_of_operand(x.args[0])) is not None):
-                fwd_edges += [(blk, x) for x in b.succ[blk]]
+            # channel lock when the last sender left). Where the channel has no buffer (rendezvous) that verdict is final and merely forwarded;
+            # where it has one, "the last sender left" says nothing about what is still buffered (another waiter may have been woken for a
+            # queued value and not run yet): the state read counts as a sender-liveness observation and the re-drain obligation applies.
+            st_loads = mir.derives_from_call(b, t["o"], lambda x: x.is_atomic and x.method == "load" and bool(x.args)
+                                             and re.search(r"(^|\.)(state|done_flag)$", b.path_of_operand(x.args[0])) is not None) if t["k"] == "switch" else []
+            if st_loads:
+                if STATE_VERDICT_FINAL.search(b.id):
+                    fwd_edges += [(blk, x) for x in b.succ[blk]]
+                else:
+                    state_obs.extend(st_loads)
             s = b.switch_source(blk)
             if s and s["kind"] == "call" and s["event"].method == "load" and s["event"].args and re.search(r"\.closed$|closed_flag$", b.path_of_operand(s["event"].args[0])):
                 closed_edges += b.edges_by_label(blk).get("false" if s.get("neg") else "true", [])
             if s and s["kind"] == "place" and re.search(r"\.closed$", s["path"]):
                 closed_edges += b.edges_by_label(blk).get("false" if s.get("neg") else "true", [])
-        L = []
+        L = list({id(x): x for x in state_obs}.values())
         for e in b.events:
             if e.kind == "call" and LIVE_CALLS.match(e.method or "") and e.callee.startswith("fibre::"):
                 L.append(e)
@@ -510,6 +519,13 @@ def clause5(P, res):
             reachL = [l for l in L if c.pos in b.pos_reach_set(l.pos)]
             if not reachL:
                 res.unclassified(rid, key, f"Disconnected decided at {c.loc} without a recognisable sender-liveness observation in this function", where=c.loc)
+                continue
+            so = [l for l in reachL if any(l is x for x in state_obs)]
+            so_bad = [l for l in so if c.pos in b.pos_reach_set(l.pos, removed=frozenset(d.pos for d in D))]
+            if so_bad:
+                res.violated(rid, key, f"Disconnected at {c.loc} is decided from the waiter state the closer stored (read at {so_bad[0].loc}) without another dequeue attempt: the "
+                             "last sender leaving says nothing about values still buffered (another waiter was woken for them and has not run yet) — they are abandoned, "
+                             "and a later receive on the same handle obtains them after Disconnected", where=c.loc)
                 continue
             if locky:
                 doms = [d for d in D if b.dominated_by_any(c.pos, {d.pos})]
@@ -787,6 +803,83 @@ def clause9(P, res, hs):
         res.violated(rid, "clone-bodies", f"expected >= 15 counted Clone impls of handle types, found {n}")
 
 
+def clause10(P, res, hs):
+    rid = "C04-10"
+    res.rule(rid, "a clone of a closed handle does not revive its side: in every Clone::clone of a counted handle type the registration in shared state (counter increment / "
+                  "cursor insertion) is control-dependent on the source handle's closed flag having been read as open — otherwise closing the last sender and then cloning "
+                  "that closed handle takes the count from 0 back to 1: a receiver that already observed Disconnected obtains values afterwards (and a send that failed "
+                  "with Closed succeeds again)")
+    n = 0
+    for h in sorted(hs.values(), key=lambda h: h.path):
+        if not h.is_clone:
+            continue
+        cb = common.trait_method_body(P, h.path, "core::clone::Clone", "clone")
+        if cb is None:
+            continue
+        db = common.drop_body(P, h.path)
+        dec_fields = {o[1] for o in counter_ops(P, db) if o[0] in ("dec", "list")} if db is not None else set()
+        regs = [o for o in counter_ops(P, cb) if o[0] in ("inc", "list") and o[1] in dec_fields]
+        if not regs:
+            continue
+        n += 1
+        # top-level events of the clone body that perform or lead to the registration (the counter that the Drop path gives back)
+        top = [ev for k, f, ev, bb in regs if bb is cb]
+        for x in cb.calls():
+            tgt = P.body(x.callee_resolved)
+            if tgt is not None and tgt.id.startswith("fibre::"):
+                inner = [o for o in counter_ops(P, common.effective_body(P, tgt)) if o[0] in ("inc", "list") and o[1] in dec_fields]
+                if inner:
+                    top.append(x)
+        # plain `guard.sender_count += 1` under a lock is a field write, not a call
+        open_edges = []
+        for blk in range(len(cb.blocks)):
+            if cb.is_cleanup(blk):
+                continue
+            ss = cb.switch_source(blk)
+            if not ss:
+                continue
+            if ss["kind"] == "call" and ss["event"].is_atomic and ss["event"].method == "load" and ss["event"].args and origin(cb, ss["event"].args[0]) == "self.closed":
+                open_edges += cb.edges_by_label(blk).get("true" if ss.get("neg") else "false", [])
+            elif ss["kind"] == "place" and ss["path"] == "self.closed":
+                open_edges += cb.edges_by_label(blk).get("true" if ss.get("neg") else "false", [])
+        bad = [t for t in top if not (open_edges and cb.edges_dominate(open_edges, t.pos))]
+        key = h.path
+        if not top:
+            res.unclassified(rid, key, "registration of the clone not located at the top level of the clone body", where=f"{cb.file}:{cb.line}")
+        elif bad:
+            res.violated(rid, key, f"clone registers the new handle at {bad[0].loc} without having found the source handle open: cloning a handle that was closed (and was the last "
+                         "of its side) revives a side whose disconnect the other side has already observed", where=bad[0].loc)
+        else:
+            res.holds(rid, key, "registration only behind the not-closed edge of self.closed", where=top[0].loc)
+    if n < 15:
+        res.violated(rid, "clone-bodies", f"expected >= 15 counted Clone impls of handle types, found {n}")
+
+
+def clause11(P, res):
+    rid = "C04-11"
+    res.rule(rid, "oneshot observers look at the sender count first: in every oneshot function (outside the receive core, which C04-7 decides) that combines the slot state "
+                  "with sender_count to answer 'closed?', every load of the state is dominated by the load of sender_count — a sender stores SENT before it gives its "
+                  "count back, so a state read that follows a count of zero is final, while the other order can pair a stale EMPTY with a fresh zero and answer 'closed' "
+                  "with the value still waiting")
+    n = 0
+    for b in P.bodies.values():
+        if not b.id.startswith("fibre::oneshot::") or "::tests::" in b.id or re.search(r"OneShotShared::<T>::(try_recv|poll_recv|decrement_senders|send)$", b.id):
+            continue
+        st = [e for e in b.calls() if e.is_atomic and e.method == "load" and e.args and b.path_of_operand(e.args[0]).endswith(".state")]
+        sc = [e for e in b.calls() if e.is_atomic and e.method == "load" and e.args and b.path_of_operand(e.args[0]).endswith("sender_count")]
+        if not st or not sc:
+            continue
+        n += 1
+        bad = [x for x in st if not b.dominated_by_any(x.pos, {c.pos for c in sc})]
+        if bad:
+            res.violated(rid, b.id, f"the state is loaded at {bad[0].loc} before sender_count ({sc[0].loc}): a send that completes between the two loads is reported as 'closed, no "
+                         "value will come' although try_recv then returns the value", where=bad[0].loc)
+        else:
+            res.holds(rid, b.id, "sender_count is read before the state", where=st[0].loc)
+    if n < 1:
+        res.violated(rid, "oneshot-observers", "expected oneshot::Receiver::is_closed to combine state and sender_count, found no such body")
+
+
 def run(P, ctx):
     res = Result("C04")
     res.extra["explanation"] = ("Closed-gate, last-handle, conversion, drop-once and drain-before-Disconnected clauses "
@@ -802,4 +895,6 @@ def run(P, ctx):
     clause7(P, res)
     clause8(P, res)
     clause9(P, res, hs)
+    clause10(P, res, hs)
+    clause11(P, res)
     return res
